@@ -6,6 +6,7 @@ import (
 	"bytes"
 	"compress/flate"
 	"context"
+	"encoding/base64"
 	"fmt"
 	"io"
 	"net/http"
@@ -359,6 +360,23 @@ func playWarmups(w *world.World, spec world.Spec, sp int, host string, kinds []s
 				}
 			}
 			hr, _, _ = spsim.Encode(spec.IdP.Route("sso"), wr(tree), spsim.Transport{Binding: "post", Plus: true, Encoding: A, RelayState: "warmup"}, nil)
+		case "sso-redirect", "sso-broken-deflate":
+			// the same valid request through the redirect binding - whole, or in a DEFLATE stream that delivers the whole document
+			// and then breaks off (flushed, never finished): what was inflated for a request that failed is nobody's document
+			id := fmt.Sprintf("_warmup-%d", i)
+			if reuseID != "" {
+				id = reuseID
+			}
+			doc := wr(spsim.NewAuthnReq(id, s.EntityID).Tree(plainStyle))
+			if k == "sso-redirect" {
+				var rs *spsim.Signing
+				if signingRequired(spec, sp) && len(s.KeyNames) > 0 {
+					rs = &spsim.Signing{Alg: world.AlgRSASHA256, KeyName: s.KeyNames[0]}
+				}
+				hr, _, _ = spsim.Encode(spec.IdP.Route("sso"), doc, spsim.Transport{Binding: "redirect", Plus: true, Encoding: A, RelayState: "warmup"}, rs)
+			} else {
+				hr = obs.HTTPReq{Method: "GET", Path: spec.IdP.Route("sso"), RawQuery: "SAMLRequest=" + qesc(base64.StdEncoding.EncodeToString(spsim.DeflateBroken(doc))) + "&RelayState=warmup"}
+			}
 		case "sso-unknown", "logout-unknown", "attrquery-unknown":
 			// requests of somebody the storage has never heard of (scanners, a provider not yet registered)
 			unknown := fmt.Sprintf("https://never-registered-%d.example/metadata", i)
